@@ -279,7 +279,9 @@ func ruleP07SliceGuard(p *Prog, r *Report) {
 		return
 	}
 	n := 0
-	eachInstr(work, func(in ssa.Instruction) {
+	// (also inside a small helper such as dropLast(xs), once per call, with the helper's
+	// parameter standing for that call's argument)
+	eachVInstrCtx(work, func(in ssa.Instruction) {
 		var idx, coll ssa.Value
 		switch x := in.(type) {
 		case *ssa.Slice:
@@ -583,4 +585,13 @@ func getterLookup(g *ssa.Function) *ssa.Lookup {
 		}
 	}
 	return lk
+}
+
+// eachVInstrCtx visits the instructions of root and of the transparent helpers it calls, each
+// helper once per chain of call sites, with that chain installed as the resolution context.
+func eachVInstrCtx(root *ssa.Function, fn func(ssa.Instruction)) {
+	for _, vi := range virtualInstrs(root) {
+		vi := vi
+		vi.run(func() { fn(vi.in) })
+	}
 }
